@@ -8,7 +8,9 @@ TOKENS = ["a", "b", "c", "x", " ", " ", "  ", "   ", "    ", "\n", "\n", "\n", "
           "&#65;", "&#x41;", "&notit;", "&", ";", "é", "ß", " ", " ", "“", "=", "-", "!", "![", "\"", "'", "[a]: /u\n", "[a]: /u \"t\"\n", "[b]: <v w> 't'\n",
           "[a]", "[b]", "[a][a]", "[a][]", "[a][b]", "[A]", "<b>", "</b>", "<b c=\"d\">", "<!-- ", "-->", "<!--> ", "<![CDATA[", "]]>", "<?", "?>", "<!D", "<a href=\"x\">",
           "<script>", "</script>", "<pre>", "</pre>", "<div>\n", "</div>\n", "  \n", "\\\n", "<http://x.y>", "<a@b.c>", "http://x", "===\n", "---\n", "***\n", "___\n",
-          "(/u)", "(/u \"t\")", "(<u v>)", "(/u 't\nu')", "\\*", "\\[", "\\]", "\\`", ".", ",", "%", "%41", "%GG", "/u", "\"t\nu\"", "<b\nc>", "`a\nb`", "[a\nb]", "\x00", "0", "9"]
+          "(/u)", "(/u \"t\")", "(<u v>)", "(/u 't\nu')", "\\*", "\\[", "\\]", "\\`", ".", ",", "%", "%41", "%GG", "/u", "\"t\nu\"", "<b\nc>", "`a\nb`", "[a\nb]", "\x00", "0", "9",
+          "\x0c", "\x0b", "\u0085", "\u2003", "&Tab;", "<script\x0c", "<STYLE\x0c>", "<div><script\x0csrc=x>", "<Strong><Script>", "<DIV><XMP>", "Р", "不", "上", "三", "…", "‡",
+          "![*a](/u) b*", "![**a](/u \"t\") b**", "[a][]", "![a][]", "%4\"", "<http://a/%4\"x=y>"]
 BAD = ["\xff", "\xc3", "\xe2\x82", "\x80", "\xf0\x9f", "\x00\x00", "\x0b", "\x0c", "\x1b", "\x7f"]
 
 
@@ -130,9 +132,9 @@ def strings_over(alphabet, maxlen):
 
 # ---- structured generator: near-valid multi-line constructs in containers ---------------------------
 _MB = [c.encode() for c in ["à", "\u00a0", "\u0085", "\u2028", "\u3000", "だ", "Ł", "ź", "б", "乡", "…", "\u2003", "ſ", "ß", "ς", "µ", "ǅ", "İ"]]
-_WORDS = _MB + [b"a", b"foo", b"bar", b"b c", b"x", "é".encode(), b"1", b"#", b"*a*", b"_b_", b"`c`", b"\\*", b"&amp;", b"<b>", b"a*", b"_", b"!", b"]", b"["]
+_WORDS = _MB + ["Р".encode(), "不".encode(), "上".encode(), "三".encode(), "…".encode(), b"*a", b"**a", b"_a", b"b*", b"b**", b"b_", b"a", b"foo", b"bar", b"b c", b"x", "é".encode(), b"1", b"#", b"*a*", b"_b_", b"`c`", b"\\*", b"&amp;", b"<b>", b"a*", b"_", b"!", b"]", b"["]
 _LABELS = [b"x\x00y", b"\x00", b"a\x00\x00b", b"foo", b"bar", b"Foo", b"bar baz", b"a", "ß".encode(), b"x y", b"1", "straße".encode(), b"STRASSE", "ΟΔΟΣ".encode(), "οδος".encode(), "ſ".encode(), b"S", "µ".encode(), "Μ".encode()]
-_DESTS = [b"/ux\\", b"<v\\", b"/\xc5\x81", "/б乡".encode(), b"/url", b"/u", b"<v w>", b"<>", b"http://x.y/z", b"/a(b)c", b"/a\\)b", b"<a\\>b>", b"/u%20v", b"#f"]
+_DESTS = ["/wiki/a…b".encode(), "/США".encode(), "/a‡".encode(), b"/ux\\", b"<v\\", b"/\xc5\x81", "/б乡".encode(), b"/url", b"/u", b"<v w>", b"<>", b"http://x.y/z", b"/a(b)c", b"/a\\)b", b"<a\\>b>", b"/u%20v", b"#f"]
 _TITLES = [b"\"t\\", b"'t\\", b"(t\\", b"\"t\"", b"'t'", b"(t)", b"\"t u\"", b"'a \"q\" b'", b"\"t", b"(t (u) v)", b"\"&amp;\\\"\"", b"''"]
 
 
@@ -161,7 +163,7 @@ def _inline_template(rng):
         o, c = rng.choice([(b"<!--", b"-->"), (b"<?", b"?>"), (b"<![CDATA[", b"]]>"), (b"<!X", b">"), (b"<!--", b"->")])
         return [o, b" ", w(), b" ", w(), b" ", c]
     if k == 6:      # autolink
-        return [b"<", rng.choice([b"http://a.b/c", b"a@b.c", b"x:y z", b"ab:", b"a+b.c-d://e"]), b">"]
+        return [b"<", rng.choice([b"http://a.b/c", b"a@b.c", b"x:y z", b"ab:", b"a+b.c-d://e", b"http://a/%4\"onmouseover=alert(1)", b"x:%\"", b"ab:%a'b", b"http://a/%zz\"", "http://a/…".encode(), b"x:%4"]), b">"]
     if k == 7:      # emphasis runs
         d = rng.choice([b"*", b"**", b"_", b"__", b"***"])
         return [d, w(), b" ", w(), rng.choice([d, d, b"*", b"_"])]
@@ -182,6 +184,9 @@ def _inline_template(rng):
         return [rng.choice([b"&amp;", b"&#65;", b"&#x41;", b"&#0;", b"&#xD800;", b"&#1234567;", b"&nosuch;", b"&amp", b"&#;", b"&copy;"])]
     if k == 11:     # unbalanced brackets
         return [rng.choice([b"[", b"![", b"]", b"[[", b"]]", b"](", b"]["]), w(), rng.choice([b"]", b"](", b")", b"[", b""])]
+    if k == 13:     # an unmatched emphasis opener inside a link / image description, its closer after the construct
+        d = rng.choice([b"*", b"**", b"_", b"__"])
+        return [rng.choice([b"![", b"[", b"!["]), d + w(), b"]", b"(", rng.choice(_DESTS)] + ([b" ", rng.choice(_TITLES)] if rng.random() < 0.4 else []) + [b")", b" ", w() + d]
     if k == 12:     # link with label that looks like definition
         return [b"[", w(), b"]", b":", b" ", rng.choice(_DESTS)]
     return [w()]
@@ -258,9 +263,9 @@ def _block(rng, depth):
     if r < 0.75:
         f = rng.choice([b"```", b"~~~", b"````", b"~~~~"])
         body = b"".join(rng.choice([b"x\n", b"\n", b"  y\n", b"```\n", b"~~~\n", b"<b>\n", b"\tz\n"]) for _ in range(rng.randrange(4)))
-        return rng.choice([b"", b" ", b"   "]) + f + rng.choice([b"", b" go", b"go x", b" \\*", b" &#32;", b"&nbsp;", b" &Tab; x", b" a&amp;b", b" \\ ", b"&#x20;", b" go\xc2\xa0", b"\xc3\xa0", b" x \xe3\x81\xa0 ", b"\xc2\xa0"]) + b"\n" + body + (rng.choice([b"", b"  "]) + f + rng.choice([b"", b"`", b" ", b" x"]) + b"\n" if rng.random() < 0.7 else b"")
+        return rng.choice([b"", b" ", b"   "]) + f + rng.choice([b"", b" go", b"go x", b" \\*", b" &#32;", b"&nbsp;", b" &Tab; x", b" a&amp;b", b" \\ ", b"&#x20;", b" go\xc2\xa0", b"\xc3\xa0", b" x \xe3\x81\xa0 ", b"\xc2\xa0", b"\x0c", b" \x0b", "\u2003".encode(), b"&Tab;", b" &nbsp; "]) + b"\n" + body + (rng.choice([b"", b"  "]) + f + rng.choice([b"", b"`", b" ", b" x"]) + b"\n" if rng.random() < 0.7 else b"")
     if r < 0.80:
-        return b"".join(rng.choice([b"    ", b"\t", b"     ", b"  \t"]) + rng.choice([b"code", b"- x", b"> y", b"<b>", b""]) + b"\n" for _ in range(1 + rng.randrange(3)))
+        return b"".join(rng.choice([b"    ", b"\t", b"     ", b"  \t"]) + rng.choice([b"code", b"- x", b"> y", b"<b>", b"", b"\x0c", b"\x0b", b"\xc2\xa0", b"\xc2\x85", "\u2003".encode(), b"a"]) + b"\n" for _ in range(1 + rng.randrange(3)))
     if r < 0.86:
         o = rng.choice([b"<div>", b"<pre>", b"<!--", b"<?php", b"<!DOCTYPE x>", b"<![CDATA[", b"<b>", b"</x>", b"<script>", b"<table><tr>"])
         return o + b"\n" + _paragraph(rng) + rng.choice([b"", b"</div>\n", b"</pre>\n", b"-->\n", b"?>\n", b"]]>\n", b"\n", b"</script>x\n"])
@@ -287,7 +292,9 @@ def _block(rng, depth):
             else:
                 k = rng.random()
                 ind = width if k < 0.7 else rng.choice([0, 1, width - 1, width + 1, width + 4])
-                out.append((b" " * max(0, ind) + l) if l else b"")
+                t = rng.random()
+                pre = b"\t" if t < 0.12 else (b" \t" if t < 0.18 else b" " * max(0, ind))
+                out.append((pre + l) if l else b"")
         return b"\n".join(out) + b"\n"
     return _paragraph(rng)
 
@@ -325,13 +332,21 @@ def tab_opener_templates():
     return [p + o + r for p in prefixes for o in openers for r in rests]
 
 
+def final_newline_templates():
+    """documents without a final line ending whose last bytes end an inline or block construct (the final-newline clause of C14)"""
+    ends = [b"[a][]", b"![a][]", b"[a]", b"[a][a]", b"`x`", b"``x", b"*x*", b"**x", b"<b>", b"<b", b"[a](/u)", b"[a](/u", b"&amp;", b"&amp", b"\\", b"x  ", b"a\\",
+            b"<http://x.y>", b"<a@b.c", b"![x](/u \"t\")", b"x\t", b"]", b"[", b"# see [a][]", b"# x #", b"#", b"===", b"---", b"```", b"~~~ x", b"    c", b"<div>", b"<!-- x", b"<?", b"[b]: /v", b"[b]: /v \"t", b"[b]:"]
+    pres = [b"", b"> ", b"- ", b"1. ", b"> - ", b"x\n"]
+    return [b"[a]: /u\n\n" + p + e for p in pres for e in ends]
+
+
 def tab_nul_templates():
     """container prefix x construct opener x continuation indent with tabs x rest with NUL bytes (exhaustive product, about 4000 documents):
     partial tabs inside containers and padded NULs are where the byte reader's virtual positions matter"""
-    prefixes = [b"- ", b"-  ", b"-   ", b"-    ", b"1. ", b"1.  ", b"1.   ", b"10. ", b"> ", b">", b">  "]
-    firsts = [b"[a", b"[a]:", b"a", b"`a", b"<b", b"[a](", b"*a"]
-    conts = [b"\t", b"\t\t", b" \t", b"  \t", b" \t\t", b"   \t", b"\t \t"]
-    rests = [b"b\x00]", b"\x00b]", b"/u\x00rl", b"b]", b"\x00", b"b\x00\x00c]", b"x`", b"c>"]
+    prefixes = [b"", b"- ", b"-  ", b"-   ", b"-    ", b"1. ", b"1.  ", b"1.   ", b"10. ", b"> ", b">", b">  "]
+    firsts = [b"[a", b"[a\x00", b"[a]:", b"a", b"`a", b"<b", b"[a](", b"*a"]
+    conts = [b"", b"\t", b"\t\t", b" \t", b"  \t", b" \t\t", b"   \t", b"\t \t"]
+    rests = [b"b\x00]", b"\x00b]", b"\x00b]: /url", b"/u\x00rl", b"b]", b"\x00", b"b\x00\x00c]", b"x`", b"c>"]
     out = []
     for p in prefixes:
         for f in firsts:
